@@ -6,7 +6,7 @@ def plan(prop, tier, seed, t0):
     from plans import run_plan, COMMON_ASSUME
     q = tier == "quick"
     # at most 6 TLC workers / 6 trace shards validated in parallel
-    mcs = [dict(name="qasm_q", module="MC_Qasm.tla", cfg="MC_Qasm_q.cfg", workers=6, timeout=600)]
+    mcs = [dict(name="qasm_q", module="MC_Qasm.tla", cfg="MC_Qasm_q.cfg", workers=6, timeout=3000)]
     if not q:
         mcs.append(dict(name="qasm_t", module="MC_Qasm.tla", cfg="MC_Qasm_t.cfg", workers=6, timeout=3000))
     T = dict(module="Trace_Qasm.tla", cfg="Trace_Qasm.cfg", shards=6)
